@@ -104,6 +104,8 @@ func (s *StoreHealthTracker) setStoreVersion(version byte) error {
 		if err := s.store.Set([]byte("dbVersion"), []byte{version}); err != nil {
 			return ierrors.New("failed to set store health version")
 		}
+	} else if err != nil {
+		return ierrors.New("failed to read store health version")
 	}
 
 	return nil
